@@ -6,26 +6,26 @@ VERIF = os.path.dirname(os.path.dirname(os.path.abspath(__file__)))
 
 ALL = ['C%02d' % i for i in range(1, 21)]
 
-# id -> (technique, level text, level note, design ref)
 CLAIMED = {}
 
 
-def claim(pid, technique, text, note, ref):
-    CLAIMED[pid] = (technique, text, note, ref)
+def discover():
+    import importlib
+    import sys
+    sys.path.insert(0, VERIF)
+    for pid in ALL:
+        path = os.path.join(VERIF, 'harness', 'props', pid.lower() + '.py')
+        if os.path.exists(path):
+            mod = importlib.import_module('harness.props.' + pid.lower())
+            P = mod.PROP
+            CLAIMED[pid] = (P.technique, P.level_text, P.level_note, P.design_ref)
 
-
-claim('C13',
-      'Lean 4 proof (induction over histories, parametric id width) + differential correspondence',
-      'Theorems c13_alloc_sound, c13_fails_iff_full, c13_history (all id widths k>=1, all active sets, all histories) are kernel-checked on a model '
-      'of StreamControl; the model is tied to the code by the regenerated constant (2^31-1) and by running the real StreamControl and the compiled '
-      'Lean model on the same histories (exhaustive short histories on a 3-bit space, random on 3/4/7 bits, full width near the wrap).',
-      'Trusted: Lean kernel, axioms propext/Classical.choice/Quot.sound, the hand-written model as far as the correspondence reaches, harness; '
-      'dict semantics of CPython.', '§5 C13')
 
 NOT_YET = {}
 
 
 def main():
+    discover()
     checks = []
     for pid in ALL:
         if pid in CLAIMED:
